@@ -27,6 +27,8 @@ package event
 import (
 	"math"
 	"sync"
+
+	"github.com/AliceO2Group/Control/common/verifhook"
 )
 
 // This structure is meant to be used as a threadsafe FIFO with builtin waiting for new data
@@ -60,6 +62,7 @@ func (this *FifoBuffer[T]) PopMultiple(numberToPop uint) (result []T) {
 	defer this.cond.L.Unlock()
 
 	for len(this.buffer) == 0 {
+		verifhook.Point("evw.fifo.wait")
 		this.cond.Wait()
 		// this check is used when ReleaseGoroutines is called on waiting goroutine
 		if len(this.buffer) == 0 {
